@@ -491,13 +491,16 @@ BAcq(i) ==         \* pqueue.AcquireMulti over the source and target throttles
 
 BlobWrite(n) == /\ tb' = tb \cup {n} /\ lateWrite' = (lateWrite \/ tagMoved)
                 /\ UNCHANGED <<tm, tt, fbl, written, tagMoved>>
+\* the registry decides per request: mounts supported (conf.mount), except - when conf.decline - the mount
+\* of one blob (the first object of the shape), which it answers like a registry without mount support
+Granted(t) == conf.mount /\ ~(conf.decline /\ t.node = Sh.order[1])
 BMount(i) ==
   LET t == tasks[i] IN
   /\ t.pc = "bmount"
-  /\ \/ /\ ~EffCancel(i) /\ conf.mount                          \* 201 mounted
+  /\ \/ /\ ~EffCancel(i) /\ Granted(t)                          \* 201 mounted
         /\ BlobWrite(Q(t)) /\ Finish(i, "ok")
         /\ BlobReq /\ nWrites' = nWrites + 1 /\ UNCHANGED <<faults, getc, comc, nManPut>>
-     \/ /\ ~EffCancel(i) /\ ~conf.mount                         \* 202 with an upload session to cancel
+     \/ /\ ~EffCancel(i) /\ ~Granted(t)                         \* 202 with an upload session to cancel
         /\ tasks' = [tasks EXCEPT ![i].pc = "bmdel"] /\ UNCHANGED <<seen, slots, Obs, faults>>
         /\ BlobReq /\ nWrites' = nWrites + 1 /\ UNCHANGED <<getc, comc, nManPut>>
      \/ /\ CanFail(i)
